@@ -728,6 +728,9 @@ def run(ctx):
     for e in g.edges:
         ops[e["op"]] = ops.get(e["op"], 0) + 1
     ctx.extra["edges_per_action"] = ops
+    ctx.extra["lts_faulted_calls"] = {r: sum(1 for e in g.edges if e["op"] in ("sortby", "iofault") and e["res"] == r)
+                                      for r in ("CallerError", "TypeError")}
+    ctx.extra["lts_unspecified_edges"] = sum(1 for e in g.edges if len(e.get("alt", ())) > 1)
     names, values = [1, 2, 3], ["1", "2"]
     private_drift(ctx)
 
@@ -822,6 +825,13 @@ def run(ctx):
                       "recorded history not explained by OrderedMap: event %d %r (after %d accepted events)"
                       % (at + 1, ev, at))
     ctx.extra["traces_recorded"] = len(traces)
+    fc = {}
+    for t in traces:
+        for e in t["events"]:
+            if e["op"] in ("sortby", "iofault", "updfault"):
+                k = "%s/%s:%s" % (e["op"], e.get("fm") or e.get("kind") or len(e.get("ps", ())), e["res"])
+                fc[k] = fc.get(k, 0) + 1
+    ctx.extra["trace_events_caller_objects"] = dict(sorted(fc.items()))
     ctx.extra["traces_rejected"] = len(rejected)
 
 
